@@ -22,8 +22,9 @@ PV = [
     ("2-tuple", ["(1;2)", "(3;4)"]), ("3-tuple", ["(a;b;c)"]), ("int", []), (None, []), ("string", ['say "hi"', "it's", "[br]"]), ("string", ["100%", "%%d"]), ("string", ["next\x85line", "sep\u2028arator", "nb\xa0sp"]), ("string", ["astral \U0001F600 plane", "x"]), ("float", [1e-07, 1e+16, 5.0]),
     ("datetime", [dt.datetime(2020, 1, 2, 3, 4, 5, tzinfo=dt.timezone(dt.timedelta(hours=2))), dt.datetime(1999, 12, 31, 23, 59, 59)]),
     ("time", [dt.time(1, 2, 3, tzinfo=dt.timezone.utc)]),
+    ("string", ["\u212bngstr\u00f6m", "e\u0301 decomposed", "\u1112\u1161\u11ab"]),          # valid Unicode that is not in normal form C
 ]
-TEXTS = ["plain G-Node text", "  surrounded by space \n", "<tag> & \"quote\"", "ünï", "yes", "12", None, "50%% of 10% %s",
+TEXTS = ["plain G-Node text", "  surrounded by space \n", "<tag> & \"quote\"", "ünï, not in normal form C: \u2126 \u212b u\u0308", "yes", "12", None, "50%% of 10% %s",
          "two  blanks\tand a\nline break, NEL \x85 and LS \u2028 inside"]
 
 
